@@ -423,7 +423,7 @@ def main(argv):
     harness_ok = ok
 
     # 2. proof obligations
-    ok, out = build_lean(["specgen"] + spec.get("lean_targets", []))
+    ok, out = build_lean(["specgen"] + (["specexplore"] if spec.get("lin") else []) + spec.get("lean_targets", []))
     if not ok:
         broken.append({"what": "lake build " + " ".join(spec.get("lean_targets", [])), "detail": out[-3000:]})
     theorems, axioms_seen, n_oblig, n_dis = {}, set(), 0, 0
@@ -469,6 +469,12 @@ def main(argv):
             fails = conc.run_profile(prof, seed, monitors, oracles, stats)
             stats["conc_failures"] += len(fails)
             disagreements += fails
+        if spec.get("lin"):
+            for prof, k in spec["lin"](tier, seed):
+                log(f"linearizability profile {prof.name}: n={prof.n} programs x {k} schedules, outcome must be in the model's outcome set (specexplore)")
+                fails = conc.run_linearizability(prof, seed, stats, runs_per_prog=k)
+                stats["conc_failures"] += len(fails)
+                disagreements += fails
         if spec.get("conc_corpus"):
             for fn in spec["conc_corpus"]:
                 run = conc.run_conc(open(os.path.join(CORPUS, fn)).read())
@@ -572,6 +578,8 @@ def main(argv):
         "conc": {"programs": stats["conc_programs"], "events": stats["conc_events"], "distinct_nontrivial_schedules": len(stats["conc_nontrivial"]),
                  "event_kinds": dict(stats["conc_kinds"]), "run_ends": dict(stats["conc_ends"]), "samples": stats["conc_samples"],
                  "rule": "programs are generated from the property's profile (seeded), each run under one seeded schedule of the controlled scheduler on the real crate; non-trivial = the run contains a signal hand-off (st/cas on a signal) or a park; distinct = distinct sequence of lock/unlock/st/cas/park/unpark/wake/ret events"},
+        "linearizability": {"programs": stats.get("lin_programs", 0), "model_outcomes_enumerated": stats.get("lin_outcomes", 0),
+                            "explorations_cut_off": stats.get("lin_incomplete", 0)},
         "explanation": spec.get("explanation", ""),
     }
     ev = {"property_id": pid, "tier": tier, "seed": seed, "level": level, "coverage": cov,
